@@ -77,8 +77,14 @@ def configs():
     return cfg
 
 
+PADS = [("", " "), (" ", ""), ("", "\n"), ("\t", "\r\n")]
+
+
 def version_answers():
-    return [{"kind": "version", "value": v} for v in N.UNIVERSE]
+    out = [{"kind": "version", "value": v} for v in N.UNIVERSE]
+    # an offered version with white space around it is a DIFFERENT string: not in the caller's list
+    out += [{"kind": "version", "value": a + v + b} for v in N.REAL[:2] for a, b in PADS]
+    return out
 
 
 def malformed_answers():
@@ -121,6 +127,12 @@ def error_answers(rng):
             out.append({"kind": "error", "code": c, "message": m})
     for m in PV_MESSAGES[1:] + PLAIN_MESSAGES[1:] + BOUNDARY_MESSAGES:
         out.append({"kind": "error", "code": -32602, "message": m})
+    # a rejection that advertises the server's versions (error.data) from a peer that WOULD answer a second initialize
+    for c, m in ((-32602, PV_MESSAGES[0]), (-32602, PLAIN_MESSAGES[0]), (-32603, PV_MESSAGES[0])):
+        for data, retry in (({"supported": [N.REAL[0], N.REAL[-1]]}, N.REAL[0]), ({"supported": N.UNIVERSE}, N.INVENTED[0]),
+                            ({"supported": [N.REAL[1]], "requested": "x"}, N.REAL[1]), ([N.REAL[0]], N.REAL[0]),
+                            ({"supportedVersions": list(N.REAL)}, N.REAL[-1])):
+            out.append({"kind": "error", "code": c, "message": m, "data": data, "retry": retry})
     return out
 
 
@@ -152,7 +164,9 @@ def gen_cases(ctx):
                 case["timeout"] = 30.0
             cases.append(case)
             k += 1
-        for ans in va:
+        for ai, ans in enumerate(va):
+            if ans["value"] not in N.UNIVERSE and not full and (ci + ai) % 5:
+                continue                  # padded answers: a fifth of the configurations each (all of them in thorough)
             add(ans, False)
             add(ans, True)
         for j, ans in enumerate(ma):
